@@ -86,6 +86,15 @@ def witnesses(tier, seed):
         for ext in ext_assignments(labels, rng, 2 if quick else 5, 64, lists):
             k += 1
             W.append(mk(T3[k % 3], lists, ext))
+    # vectorisable extents on the last index of the last operand (the fused no-op-min kernels vectorise over it when it is free)
+    for lists in tops3[::3] + tops4:
+        labels = sorted(set(l for L in lists for l in L))
+        last = lists[-1][-1]
+        for w in (4, 8):
+            k += 1
+            ext = {l: (w if l == last else (2 if (l + k) % 2 else 3)) for l in labels}
+            if all(prod([ext[l] for l in L]) <= 96 for L in lists) and prod([ext[l] for l in free_labels(lists)]) <= 256:
+                W.append(mk(T3[k % 2], lists, ext))
     # the cases the README advertises
     W.append(mk('f64', [[0, 1], [1, 2], [2, 3]], {0: 2, 1: 3, 2: 4, 3: 5}))
     W.append(mk('f64', [[0, 1], [2, 3], [3, 1]], {0: 2, 1: 3, 2: 4, 3: 5}))
@@ -97,7 +106,7 @@ def witnesses(tier, seed):
 def check(tier, seed):
     R = Runner('C15', tier, seed)
     try:
-        cfgs = [Config(isa) for isa in ALL_ISAS] + [Config('sse2', std='gnu++14'), Config('avx2', macros=('FASTOR_DONT_PERFORM_OP_MIN',)), Config('sse2', macros=('FASTOR_KEEP_DP_FIXED',))]
+        cfgs = [Config(isa) for isa in ALL_ISAS] + [Config('sse2', std='gnu++14'), Config('avx2', macros=('FASTOR_DONT_PERFORM_OP_MIN',)), Config('sse2', macros=('FASTOR_DONT_PERFORM_OP_MIN',)), Config('avx512', macros=('FASTOR_DONT_PERFORM_OP_MIN',)), Config('sse2', macros=('FASTOR_KEEP_DP_FIXED',))]
         if tier != 'quick':
             cfgs += [Config(isa, std='gnu++14') for isa in ('avx2', 'avx512')] + [Config(isa, macros=('FASTOR_DONT_PERFORM_OP_MIN',)) for isa in ('sse2', 'avx512')] + [Config('avx2', macros=('FASTOR_KEEP_DP_FIXED',))]
         R.run_all(witnesses(tier, seed), cfgs, chunk=30)
